@@ -26,6 +26,7 @@ func init() {
 			{ID: "C14.4", Desc: "maintenance API addresses the same keys and bytes", Run: ruleC14_4, MinSites: 3},
 			{ID: "C14.5", Desc: "file-name codec agreement", Run: ruleC14_5, MinSites: 2},
 			{ID: "C14.6", Desc: "prefix listing filters the decoded key", Run: ruleC14_6, MinSites: 1},
+			{ID: "C14.9", Desc: "directory names of fragmented keys carry a marker outside the file-name alphabet (no key's file is another key's directory)", Run: ruleC14_9, MinSites: 1},
 			{ID: "C14.8", Desc: "Set can create its temporary file for every key (its name does not extend the entry's file name)", Run: func(c *Ctx) { ruleC15_1(c); renameRule(c, "C15.1", "C14.8") }, MinSites: 1},
 			{ID: "C14.7", Desc: "a file name returned as one path component is bounded by the file-name limit", Run: ruleC14_7, MinSites: 1},
 		},
@@ -824,6 +825,9 @@ func ruleC14_7(c *Ctx) {
 				continue
 			}
 			rv := r.Results[0]
+			if k, isC := constStr(rv); isC && len(k) <= 255 {
+				continue // a constant name (the empty key's)
+			}
 			// fragmented return: built by a path join
 			if c.An.dependsOnCall(rv, func(cc *ssa.Call) bool {
 				return callIsPkgFunc(&cc.Call, "path/filepath", "Join") || callIsPkgFunc(&cc.Call, "path", "Join") || callIsPkgFunc(&cc.Call, "strings", "Join")
@@ -879,5 +883,115 @@ func ruleC14_7(c *Ctx) {
 	}
 	if n == 0 {
 		c.Undecided("C14.7", "component-bounded", desc, "no single-component return in a file namer of store/fscache")
+	}
+}
+
+// ruleC14_9: keys may be prefixes of one another. A long key is spread over nested directories; if a directory could
+// have the same name as the file of a shorter key (36-byte keys; keys whose encoding is a whole number of fragments), one
+// of the two cannot be stored. Necessary condition decided here: the components that become directories are built by
+// appending a constant that contains a character outside the encoder's alphabet ([A-Za-z0-9_-]), the final component is
+// not, and the decoder removes that same constant.
+func ruleC14_9(c *Ctx) {
+	fp := c.P.Pkg("store/fscache")
+	if fp == nil {
+		return
+	}
+	desc := "fragment directories are named with a marker that no file name can contain, and the decoder strips it"
+	outside := func(s string) bool {
+		for _, r := range s {
+			if !(r >= 'A' && r <= 'Z' || r >= 'a' && r <= 'z' || r >= '0' && r <= '9' || r == '-' || r == '_') {
+				return true
+			}
+		}
+		return false
+	}
+	var namer, keyer *ssa.Function
+	for _, fn := range c.P.RepoFuncs {
+		if fn.Pkg != fp || fn.Parent() != nil {
+			continue
+		}
+		ps, rs := sigParams(fn), sigResults(fn)
+		if len(ps) == 1 && len(rs) == 1 && isStringType(ps[0]) && isStringType(rs[0]) && callsNamed(fn, "EncodeToString") {
+			namer = fn
+		}
+		if len(ps) == 1 && len(rs) == 2 && isStringType(ps[0]) && isStringType(rs[0]) && callsNamed(fn, "DecodeString") {
+			keyer = fn
+		}
+	}
+	if namer == nil || keyer == nil {
+		c.Undecided("C14.9", "directory-marker", desc, "file namer / keyer not found in store/fscache")
+		return
+	}
+	joins := false
+	markers := map[string]bool{}
+	plainLeaf := false
+	instrsOf(namer, func(in ssa.Instruction) {
+		if cc := callOf(in); cc != nil && (callIsPkgFunc(cc, "path/filepath", "Join") || callIsPkgFunc(cc, "path", "Join")) {
+			joins = true
+		}
+		// values appended to the component list
+		call, ok := in.(*ssa.Call)
+		if !ok {
+			return
+		}
+		b, isB := call.Call.Value.(*ssa.Builtin)
+		if !isB || b.Name() != "append" || len(call.Call.Args) != 2 {
+			return
+		}
+		sl, ok := call.Call.Args[1].(*ssa.Slice)
+		if !ok {
+			return
+		}
+		al, ok := sl.X.(*ssa.Alloc)
+		if !ok || al.Referrers() == nil {
+			return
+		}
+		for _, r := range *al.Referrers() {
+			ia, ok := r.(*ssa.IndexAddr)
+			if !ok || ia.Referrers() == nil {
+				continue
+			}
+			for _, u := range *ia.Referrers() {
+				st, ok := u.(*ssa.Store)
+				if !ok {
+					continue
+				}
+				if add, ok := st.Val.(*ssa.BinOp); ok && add.Op == token.ADD {
+					for _, o := range []ssa.Value{add.X, add.Y} {
+						if k, ok := constStr(o); ok && outside(k) {
+							markers[k] = true
+						}
+					}
+				} else {
+					plainLeaf = true
+				}
+			}
+		}
+	})
+	if !joins {
+		c.Pass("C14.9", "directory-marker", desc, c.P.ShortName(namer)+": keys are not spread over directories")
+		return
+	}
+	stripped := false
+	instrsOf(keyer, func(in ssa.Instruction) {
+		cc := callOf(in)
+		if cc == nil {
+			return
+		}
+		for _, a := range cc.Args {
+			if k, ok := constStr(a); ok && markers[k] {
+				stripped = true
+			}
+		}
+	})
+	switch {
+	case len(markers) == 0:
+		c.Fail("C14.9", "directory-marker", desc, c.P.ShortName(namer)+": directory components are plain fragments of the encoded key; a 36-byte key (one 48-character name) is a file where every longer key sharing its first 36 bytes needs a directory, and a URI key of 216, 252, ... bytes collides with its own entry key `<uri>#<variant>`")
+	case !plainLeaf:
+		c.Fail("C14.9", "directory-marker", desc, c.P.ShortName(namer)+": the final component carries the marker too; files and directories are not distinguishable")
+	case !stripped:
+		c.Fail("C14.9", "directory-marker", desc, c.P.ShortName(keyer)+": the decoder does not remove the marker "+fmt.Sprint(sortedKeys(markers))+"; key listing fails for fragmented keys")
+	default:
+		c.Pass("C14.9", "directory-marker", desc, c.P.ShortName(namer)+" marker "+fmt.Sprint(sortedKeys(markers)), c.P.ShortName(keyer))
 	}
 }
